@@ -31,6 +31,9 @@ ELEMENTS = {
     "TOpW": dict(kind="operation", params=[("a", None)], beh=["termWrite", "opw", "w", "w"], declared=["w"], inT="TData"),
     "TProbeP": dict(kind="probe", params=[("a", None)], beh=["term", "probep"], declared=[], inT="TData"),
     "TProbe": dict(kind="probe", params=[], beh=["term", "probe"], declared=[], inT="TData"),
+    # wrapped processors with keyword-only parameters (defaulted / required): parameters like any other
+    "TOpKw": dict(kind="operation", params=[("a", None), ("g", "dg")], beh=["term", "opkw"], declared=[], inT="TData"),
+    "TOpKwReq": dict(kind="operation", params=[("a", "da"), ("g", None)], beh=["term", "opkwr"], declared=[], inT="TData"),
 }
 
 
